@@ -444,6 +444,66 @@ pub fn check_pass_corpus(seeds: u64, dir: &Path, case: &Value) -> (Vec<Violation
     (out, runs)
 }
 
+/// (g): files that are independent of each other (no includes). Three of them are variants with
+/// the same layout - the same findings at the same byte offsets, under definition names of the
+/// same length. For every non-empty subset of the files (in two orders) the findings must be the
+/// disjoint union of the findings of the files run alone.
+pub fn check_file_subsets(dir: &Path, case: &Value) -> (Vec<Violation>, u64) {
+    let variant = |name: &str, prefix: &str| {
+        format!(
+            "{prefix}pragma circom 2.0.0;\n\nfunction h{name}(q) {{\n    var unused = q;\n    return q * 2;\n}}\n\ntemplate Mul{name}(n) {{\n    signal input a;\n    signal input b;\n    signal output c;\n    signal output d;\n    var x = h{name}(n);\n    if (n > 1) {{\n        var x = 2;\n        x += 1;\n    }}\n    c <-- a * b;\n    d <-- a / b;\n}}\n"
+        )
+    };
+    let files: Vec<(String, String)> = vec![
+        ("va.circom".into(), variant("A", "")),
+        ("vb.circom".into(), variant("B", "")),
+        ("vc.circom".into(), variant("C", "// shifted\n")),
+        ("other.circom".into(), "pragma circom 2.0.0;\n\ntemplate Other() {\n    signal input in;\n    signal output out;\n    out <-- in * in * in;\n}\n".into()),
+    ];
+    let _ = std::fs::create_dir_all(dir);
+    for (n, t) in &files {
+        std::fs::write(dir.join(n), t).expect("write");
+    }
+    let mut out = Vec::new();
+    let mut evals = 0u64;
+    let alone: Vec<BTreeMap<String, usize>> = files.iter().map(|(n, _)| diag_multiset(&bin(dir, &[n.clone()], 1))).collect();
+    for subset in 1u32..(1 << files.len()) {
+        let members: Vec<usize> = (0..files.len()).filter(|i| subset >> i & 1 == 1).collect();
+        let mut expected: BTreeMap<String, usize> = BTreeMap::new();
+        for i in &members {
+            for (k, v) in &alone[*i] {
+                *expected.entry(k.clone()).or_insert(0) += v;
+            }
+        }
+        for reversed in [false, true] {
+            for seed in [1u64, 2] {
+                let mut args: Vec<String> = members.iter().map(|i| files[*i].0.clone()).collect();
+                if reversed {
+                    args.reverse();
+                }
+                evals += 1;
+                let got = diag_multiset(&bin(dir, &args, seed));
+                if got != expected {
+                    let d = diff(&expected, &got);
+                    out.push(Violation {
+                        signature: format!("file-subset/{}", first_id(&d)),
+                        what: format!("independent files {args:?} run together do not give the union of their findings when run alone"),
+                        case: {
+                            let mut c = case.clone();
+                            c["subset"] = json!(subset);
+                            c
+                        },
+                        expected: "the disjoint union of the findings of each file alone".into(),
+                        observed: d,
+                    });
+                    return (out, evals);
+                }
+            }
+        }
+    }
+    (out, evals)
+}
+
 pub fn run(run: &Run) {
     run.set_rule(
         "projects = the C03 instantiation digraphs (templates carrying CFG-stage and pass-stage \
@@ -451,7 +511,9 @@ pub fn run(run: &Run) {
          named files (one definition per file); (c) every order of the definitions inside a file; \
          (d) every non-empty subset of 3 unrelated definitions added; (e) hash seeds 0..K through \
          the getrandom shim, each seed twice; (f) a corpus in which every tracking pass sees several \
-         items under one key with asymmetric uses, under 4K hash seeds; non-trivial = project with at least one edge",
+         items under one key with asymmetric uses, under 4K hash seeds; (g) every non-empty subset (two orders, two seeds) of 4 \
+         independent files, three of which carry the same findings at the same byte offsets: findings \
+         together = union of findings alone; non-trivial = project with at least one edge",
     );
     let root = work_dir("c17");
     let seeds = run.tier.pick(16u64, 256u64);
@@ -517,6 +579,17 @@ pub fn run(run: &Run) {
         run.nontrivial(1);
         run.violations(vs);
     }
+    // (g)
+    {
+        let case = json!({"kind": "file-subsets"});
+        run.watch(&case);
+        let (vs, k) = check_file_subsets(&root.join("g"), &case);
+        run.idle();
+        run.eval(k);
+        run.nontrivial(1);
+        run.set_extra("file_subset_runs", json!(k));
+        run.violations(vs);
+    }
     run.set_extra("max_distinct_analysis_orders_realised_by_seed_sweep", json!(max_orders.load(std::sync::atomic::Ordering::Relaxed)));
     let _ = std::fs::remove_dir_all(&root);
     run.assume("(e) enumerates hash seeds, not all iteration orders of all internal maps: owned and replayable, but not exhaustive; (a)-(d) are exhaustive within their bounds");
@@ -531,6 +604,7 @@ pub fn replay(case: &Value) -> Vec<Violation> {
         Some("definition-order") => check_definition_orders(n, edges, &root, case).0,
         Some("unrelated") => check_unrelated(n, edges, &root, case).0,
         Some("pass-corpus") => check_pass_corpus(case["seeds"].as_u64().unwrap_or(64), &root, case).0,
+        Some("file-subsets") => check_file_subsets(&root, case).0,
         Some("files-seeds") => check_files_and_seeds(n, edges, case["seeds"].as_u64().unwrap_or(16), &root, case).0,
         _ => {
             let mut v = c03::check_shape(n, edges, &root.join("a"), case).0;
